@@ -117,6 +117,10 @@ def _raw_mol(name):
         m = _chiral5()
     elif name == "twofrag":
         m = _twofrag()
+    elif name == "mono1":
+        m = _build("mono1", ["C"], [(0.7, -0.4, 1.1)], [])
+    elif name == "tri3":
+        m = _build("tri3", ["O", "C", "N"], [(0.0, 0.0, 0.0), (1.21, 0.1, -0.2), (1.9, 1.2, 0.3)], [(0, 1), (1, 2)])
     elif name.startswith("pentane"):
         k = int(name[len("pentane") :])
         m = ml.Molecule(ml.ConformerEnsemble.load_mol2(ml.files.pentane_confs_mol2)[k])
@@ -142,13 +146,49 @@ def _raw_ens(name):
             m.coords = c
             confs.append(m)
         e = ml.ConformerEnsemble(confs)
+    elif name == "pentane17":
+        # n_conformers == n_atoms for the pentane-like test molecule: 17 conformers of the 17-atom pentane
+        src = ml.ConformerEnsemble.load_mol2(ml.files.pentane_confs_mol2)
+        confs = []
+        for k in range(17):
+            m = ml.Molecule(src[k % src.n_conformers])
+            c = np.array(m.coords, dtype=float)
+            Mk, tk = N.pose_matrix(k % len(N.POSES))
+            c = c @ Mk + tk * 0.3
+            c[2:5] += 0.01 * (k // 7) * np.array([[1.0, 0, 0], [0, 1.0, 0], [0, 0, 1.0]])
+            m.coords = c
+            confs.append(m)
+        e = ml.ConformerEnsemble(confs)
+    elif name.startswith("syn"):
+        # synthetic chain ensembles for shape coincidences: syn<n_conformers>x<n_atoms>
+        nc, na = (int(x) for x in name[3:].split("x"))
+        base = _build(
+            name,
+            [("C", "N", "O", "S", "F")[i % 5] for i in range(na)],
+            [(1.31 * i, 0.93 * math.sin(1.1 * i + 0.4), 0.81 * math.cos(0.7 * i) + 0.13 * i) for i in range(na)],
+            [(i, i + 1) for i in range(na - 1)],
+        )
+        confs = []
+        for k in range(nc):
+            m = ml.Molecule(base)
+            c = np.array(base.coords, dtype=float)
+            for i in range(na):
+                c[i] += 0.09 * np.array([math.sin(k + 2.0 * i), math.cos(1.3 * k + i), math.sin(0.7 * k - i)]) * (k > 0)
+            Mk, tk = N.pose_matrix(k % len(N.POSES))
+            m.coords = c @ Mk + 0.2 * tk + np.array([0.4, -0.3, 0.7])
+            confs.append(m)
+        e = ml.ConformerEnsemble(confs)
     else:
         raise KeyError(name)
     _CACHE[key] = e
     return e
 
 
-MOLS_QUICK = ["chiral5", "twofrag", "pentane0", "dendrobine_mol2"]
+# (n_conformers, n_atoms) coincidences: wherever the meaning of an argument is dispatched on its shape
+SHAPE_ENS = ["syn1x1", "syn1x3", "syn3x1", "syn3x3", "syn2x3", "syn3x2", "syn4x4", "syn5x5", "pentane17"]
+
+
+MOLS_QUICK = ["chiral5", "twofrag", "pentane0", "dendrobine_mol2", "mono1", "tri3"]
 MOLS_THOROUGH = MOLS_QUICK + [
     "pentane3",
     "benzene_mol2",
@@ -881,6 +921,62 @@ def part_ens(ctx, spec):
                 exec_ens(ctx, {"family": "ens", "ens": name, "op": "Conformer.rotate_dihedral", "conf": k, "quad": list(q), "target": t})
 
 
+def part_ens_shapes(ctx, spec):
+    """every ensemble-level operation on ensembles whose (n_conformers, n_atoms) collide with each other and with 3"""
+    name = spec
+    e = _raw_ens(name)
+    nc, na = e.coords.shape[0], e.coords.shape[1]
+    lat = N.lattice_vectors(_G(ctx)) + N.lattice_vectors(None)
+    nv = len(lat)
+    for t in range(6):
+        v = lat[(13 * t + 5) % nv]
+        exec_ens(ctx, {"family": "ens", "ens": name, "op": "ConformerEnsemble.translate[1d]", "vec": N.lst(v)})
+        case = {"family": "ens", "ens": name, "op": "ConformerEnsemble.translate[2d]", "vecs": [N.lst(lat[(7 * t + 5 * k + 1) % nv]) for k in range(nc)]}
+        exec_ens(ctx, case)
+        if t == 1 and name == "syn3x3":
+            ctx.sample(case)
+        ax, ang = lat[(3 * t + 2) % 26], ANGLES[3 + t % 8]
+        exec_ens(ctx, {"family": "ens", "ens": name, "op": "ConformerEnsemble.rotate[matrix]", "rot": [N.lst(ax), ang]})
+        exec_ens(ctx, {"family": "ens", "ens": name, "op": "ConformerEnsemble.rotate[stack]", "rots": [[N.lst(lat[(3 * t + 5 * k + 1) % 26]), ANGLES[3 + (t + k) % 8]] for k in range(nc)]})
+    for i in range(na):
+        exec_ens(ctx, {"family": "ens", "ens": name, "op": "ConformerEnsemble.center_at_atom", "atom": i})
+    cores = [[0], list(range(na)), list(range(na - 1, -1, -1))]
+    if na > 1:
+        cores.append([na - 1, 0])
+    if na > 3:
+        cores.append([0, 1, 2])
+    done = []
+    for c in cores:
+        if c not in done:
+            done.append(c)
+            exec_ens(ctx, {"family": "ens", "ens": name, "op": "ConformerEnsemble.center_at_core", "core": c})
+    for k in range(nc):
+        exec_ens(ctx, {"family": "ens", "ens": name, "op": "Conformer.translate", "conf": k, "vec": N.lst(lat[(11 * k + 3) % nv])})
+        exec_ens(ctx, {"family": "ens", "ens": name, "op": "Conformer.transform", "conf": k, "rot": [N.lst(lat[(5 * k + 4) % 26]), 2.0]})
+    allc = list(range(na))
+    for maps in ([allc], [allc, allc[::-1]] if na > 1 else [allc]):
+        for ref_conf, ref_pose in ((0, 3), (nc - 1, 1)):
+            for use_vec in (False, True):
+                exec_aln(
+                    ctx,
+                    {
+                        "family": "aln",
+                        "kind": "ens",
+                        "obj": name,
+                        "maps": maps,
+                        "ref_core": allc,
+                        "ref_conf": ref_conf,
+                        "ref_pose": ref_pose,
+                        "use_vec": use_vec,
+                        "per_conf_pose": True,
+                        "degenerate_core": na < 4,
+                    },
+                )
+    if na >= 3:
+        sub = [0, 1, 2] if na > 3 else [0, 2, 1]
+        exec_aln(ctx, {"family": "aln", "kind": "ens", "obj": name, "maps": [sub], "ref_core": sub, "ref_conf": 0, "ref_pose": 2, "use_vec": True, "degenerate_core": True})
+
+
 # =====================================================================================================
 # aln : align_to_ref_coords
 # =====================================================================================================
@@ -925,7 +1021,8 @@ def exec_aln(ctx, case):
     finals = []
     rets = []
     ok = True
-    for p in range(len(N.POSES)):
+    degenerate = bool(case.get("degenerate_core"))  # fewer than 3 non-collinear core atoms: the optimum is not unique
+    for p in range(2 if degenerate else len(N.POSES)):
         Mp, tp = N.pose_matrix(p)
         start = np.empty_like(base)
         for k in range(nc):
@@ -975,7 +1072,7 @@ def exec_aln(ctx, case):
             break
         finals.append(after)
         rets.append(retl)
-    if ok:
+    if ok and not degenerate:
         # ties between mappings make the chosen rotation a coin toss of rounding: excluded, counted
         X0 = base - np.mean(base[:, maps[0], :], axis=1, keepdims=True)
         for k in range(nc):
@@ -1832,7 +1929,7 @@ def part_own(ctx, spec):
 
 # =====================================================================================================
 EXEC = {"rv": exec_rv, "ra": exec_ra, "mol": exec_mol, "dih": exec_dih, "ens": exec_ens, "aln": exec_aln, "hist": exec_hist, "histens": exec_histens, "arg": exec_arg, "own": exec_own}
-PARTS = {"rv_pairs": part_rv_pairs, "rv_anti": part_rv_anti, "ra": part_ra, "mol": part_mol, "dih": part_dih, "ens": part_ens, "aln": part_aln, "hist": part_hist, "histens": part_histens, "arg": part_arg, "own": part_own}
+PARTS = {"rv_pairs": part_rv_pairs, "rv_anti": part_rv_anti, "ra": part_ra, "mol": part_mol, "dih": part_dih, "ens": part_ens, "aln": part_aln, "hist": part_hist, "histens": part_histens, "arg": part_arg, "own": part_own, "ens_shapes": part_ens_shapes}
 
 
 def _run_part(ctx, part):
@@ -1863,7 +1960,10 @@ def run(ctx):
         + " x target menu; stated molecules/ensembles in the global pose; for every test molecule and selection a Substructure KEPT across "
         "each parent edit of {none, del_atom of an unselected atom with a lower / a higher index, add_atom, parent.translate, "
         "parent.transform, del+add} and then used (translate, transform, coords=, both, read), with and without one read of the view before the parent edit, atoms matched by identity; every conformer "
-        "view (and a Substructure of it) kept across 7 ensemble edits x 4 edits through the view; every function of the property that takes "
+        "view (and a Substructure of it) kept across 7 ensemble edits x 4 edits through the view; every ensemble-level operation (translate 1-D/2-D, "
+        "rotate matrix/stack, center_at_atom for every atom, center_at_core, Conformer translate/transform, align_to_ref_coords) on ensembles whose "
+        "(n_conformers, n_atoms) is (1,1),(1,3),(3,1),(3,3),(2,3),(3,2),(4,4),(5,5) and (17,17) pentane - the coincidences on which a "
+        "shape-dispatched argument could be misread - plus 1-atom and 3-atom molecules in the molecule families; every function of the property that takes "
         "array arguments (both rotation constructors, translate, transform, coords=, ensemble translate/rotate/coords=/center_at_core/"
         "align_to_ref_coords) called with each argument kind of {float64, strided float64 view, read-only float64, float32, int64, list, "
         "tuple}: arguments bit-identical afterwards and the documented effect; the same functions fed with VIEWS of the object's own "
@@ -1919,6 +2019,9 @@ def run(ctx):
     for name in ENS_ALL:
         for gk in [0] + ([1, 2] if thorough else []):
             parts.append(("ens", (name, gk)))
+        parts.append(("histens", name))
+    for name in SHAPE_ENS:
+        parts.append(("ens_shapes", name))
         parts.append(("histens", name))
     for name in mols:
         parts.append(("hist", name))
